@@ -148,7 +148,7 @@ theorem streamsOf_eq_inflight (ci : CfgInput) (ops : List Op) (j : Slot) (hj : j
     simpa using this
 
 /-- **C03 (reach level)** after any history, the plain-pick path adds a channel only if every channel of
-    the ready list it scans really carries at least `watermark` calls whose completion has not run
+    the ready list it scans — and every READY channel of the pool, F37 — really carries at least `watermark` calls whose completion has not run
     (the count is taken from the history of placements and completions, not from a counter), the pool
     is below maxSize and no connection is idle or connecting — and then the call is told to wait -/
 theorem growth_needs_real_load (ci : CfgInput) (ops : List Op) {s' : St} {c : Cfg} {l : List Slot}
@@ -158,12 +158,22 @@ theorem growth_needs_real_load (ci : CfgInput) (ops : List Op) {s' : St} {c : Cf
     (∀ j ∈ l, j < (run (init ci) ops).refs.length →
       c.wm ≤ (((run (init ci) ops).calls.map (·.slot)).filter (· == j)).length) ∧
     (c.max = 0 ∨ (run (init ci) ops).scRefs.length < c.max) ∧
-    (run (init ci) ops).scStates.any (fun p => p.2 == .connecting || p.2 == .idle) = false := by
-  obtain ⟨h1, h2, h3, h4⟩ := growth_only_when_saturated h hev
-  refine ⟨h1, ?_, h3, h4⟩
-  intro j hj hlt
-  have := h2 j hj
-  rw [streamsOf_eq_inflight ci ops j hlt] at this
-  exact_mod_cast this
+    (run (init ci) ops).scStates.any (fun p => p.2 == .connecting || p.2 == .idle) = false ∧
+    -- (F37) … and so does every READY channel of the pool, listed by the picker that was used or not
+    ((run (init ci) ops).cfg = some c → ∀ j r, (run (init ci) ops).refs[j]? = some r →
+      lookup (run (init ci) ops).scStates r.subConn = some .ready →
+      c.wm ≤ (((run (init ci) ops).calls.map (·.slot)).filter (· == j)).length) := by
+  obtain ⟨h1, h2, h3, h4, h5⟩ := growth_only_when_saturated h hev
+  refine ⟨h1, ?_, h3, h4, ?_⟩
+  · intro j hj hlt
+    have := h2 j hj
+    rw [streamsOf_eq_inflight ci ops j hlt] at this
+    exact_mod_cast this
+  · intro hc j r hr hst
+    have hlt : j < (run (init ci) ops).refs.length := (List.getElem?_eq_some_iff.mp hr).1
+    have hsat := all_ready_saturated hc h5 r (List.mem_of_getElem? hr) hst
+    have hso : streamsOf (run (init ci) ops) j = r.streamsCnt := by simp [streamsOf, getRef, hr]
+    rw [← hso, streamsOf_eq_inflight ci ops j hlt] at hsat
+    exact_mod_cast hsat
 
 end GcpVerif.Pool
